@@ -163,9 +163,18 @@ def check_entry_scan_bound(ctx, facts):
         if L is None:
             continue
         n += 1
-        off = op_local(b.resolve_copy(c.node["args"][1]))
         back_src = [u for u in L if hb in b.succ[u]]
         exits = set(b.loop_exits(L))
+        # the scan offsets: u64 locals that are advanced inside the loop (x = x + amount)
+        advanced = set()
+        for site, st in b.assigns():
+            if site.bb in L and not st["place"]["p"] and st["rv"]["k"] == "use" and b.local_ty(st["place"]["l"]) == "u64":
+                e = strip_refs(expr(b, st["rv"]["op"]))
+                if e[0] == "Add" and b.local_name(st["place"]["l"]) and b.local_name(st["place"]["l"]) in (show(strip_refs(e[1])), show(strip_refs(e[2]))):
+                    advanced.add(st["place"]["l"])
+        off = op_local(b.resolve_copy(c.node["args"][1]))
+        if off is not None:
+            advanced.add(off)
         bound = None
         for T in all_tests(b):
             if T.kind != "cmp" or T.bb not in L or T.op not in ("Ge", "Gt", "Lt", "Le"):
@@ -173,7 +182,7 @@ def check_entry_scan_bound(ctx, facts):
             la, lb = op_local(b.resolve_copy(T.a)), op_local(b.resolve_copy(T.b))
             ca = fmtfeat.const_eval(strip_refs(expr(b, T.a))) if la is None else None
             cb = fmtfeat.const_eval(strip_refs(expr(b, T.b))) if lb is None else None
-            if not ((la == off and cb == D) or (lb == off and ca == D)):
+            if not ((la in advanced and cb == D) or (lb in advanced and ca == D)):
                 continue
             if not (T.true_edge in exits or T.false_edge in exits):
                 continue
